@@ -1,8 +1,10 @@
-(* The include traversal of Model/Loader.v for ALL file systems and all coherent caches: the result
-   does not depend on the cache, the traversal never runs out of fuel (every recursive call marks a
-   file of the file system that was not marked before), and everything it puts into the resolved
-   order is reachable through include directives. *)
-From HL Require Import Lib.Bytes Model.Loader.
+(* The include traversal of Model/Loader.v for ALL file systems and all coherent caches:
+   (1) the result does not depend on the cache;
+   (2) the traversal is the stack-based reference traversal of Spec/LoaderSpec.v (same order,
+       same diagnostics, same loaded set), which knows nothing of caches;
+   the graph-level facts (termination, each file once, reachability both ways, cycle verdicts)
+   are proved of the reference traversal in Proofs/LoaderGraph.v and carried over by (2). *)
+From HL Require Import Lib.Bytes Model.Loader Spec.LoaderSpec Proofs.LoaderGraph.
 Open Scope N_scope.
 
 (* every cache entry is the file as the file system holds it now, and passed the size limit *)
@@ -19,221 +21,290 @@ Proof.
   - apply C. exact H.
 Qed.
 
-Ltac use_ih IHi :=
-  match goal with
-  | HG : ?GO ?items ?res ?errs (mkLS ?v ?k1) ?h1 ?seen = Some ?o |- exists o2, ?GO ?items ?res ?errs (mkLS ?v ?k2) ?h2 ?seen = Some o2 /\ _ =>
-      apply (IHi res errs v k1 k2 h1 h2 seen o); [| |exact HG]; first [assumption | apply coherent_cons; assumption]
+(* ------------------------------------------------------------------------------------------ *)
+(* (1) cache independence *)
+
+Definition agree (o1 o2 : wout) : Prop :=
+  w_res o1 = w_res o2 /\ w_errs o1 = w_errs o2 /\ w_seen o1 = w_seen o2 /\
+  stack (w_st o1) = stack (w_st o2) /\ visited (w_st o1) = visited (w_st o2).
+
+Definition rel2 (fs : fsys) (L : limits) (a b : option wout) : Prop :=
+  match a, b with
+  | Some o1, Some o2 => agree o1 o2 /\ coherent fs L (cache (w_st o1)) /\ coherent fs L (cache (w_st o2))
+  | None, None => True
+  | _, _ => False
   end.
 
-Definition agree (o1 o2 : lout) : Prop :=
-  o_res o1 = o_res o2 /\ o_errs o1 = o_errs o2 /\ o_seen o1 = o_seen o2 /\ visited (o_st o1) = visited (o_st o2).
+Definition rec_indep (fs : fsys) (L : limits) (rec : recT) : Prop :=
+  forall q dirs S V c1 c2, coherent fs L c1 -> coherent fs L c2 ->
+    rel2 fs L (rec q dirs (mkLS S V c1)) (rec q dirs (mkLS S V c2)).
+
+Ltac sub_step Hrec IH q dirs :=
+  match goal with
+  | C1 : coherent ?fs ?L ?c1, C2 : coherent ?fs ?L ?c2 |- context [?rec q dirs (mkLS ?S ?V ?c1)] =>
+      let R := fresh "R" in
+      pose proof (Hrec q dirs S V c1 c2 C1 C2) as R; unfold rel2 in R;
+      destruct (rec q dirs (mkLS S V c1)) as [sub1|]; destruct (rec q dirs (mkLS S V c2)) as [sub2|];
+      try contradiction; [|exact I];
+      let R1 := fresh "R1" in let R2 := fresh "R2" in let R3 := fresh "R3" in let R4 := fresh "R4" in
+      let R5 := fresh "R5" in let K1 := fresh "K1" in let K2 := fresh "K2" in
+      destruct R as ((R1 & R2 & R3 & R4 & R5) & K1 & K2);
+      rewrite <- R1, <- R2, <- R3;
+      destruct (w_st sub1) as [S1 V1 k1]; destruct (w_st sub2) as [S2 V2 k2];
+      cbn [stack visited cache] in *; subst S2 V2
+  end.
+
+Lemma go_items_indep fs L rec : rec_indep fs L rec ->
+  forall items res errs S V c1 c2 h1 h2 seen, coherent fs L c1 -> coherent fs L c2 ->
+    rel2 fs L (go_items rec fs L items res errs (mkLS S V c1) h1 seen)
+              (go_items rec fs L items res errs (mkLS S V c2) h2 seen).
+Proof.
+  intro Hrec. induction items as [|[line oq] rest IH]; intros res errs S V c1 c2 h1 h2 seen C1 C2.
+  - cbn [go_items rel2]. unfold agree. cbn [w_res w_errs w_seen w_st stack visited cache]. split; [repeat split|split; assumption].
+  - cbn [go_items]. cbn [stack visited cache]. destruct oq as [q|]; [|apply IH; assumption].
+    destruct (memN q S); [apply IH; assumption|].
+    destruct (memN q V); [apply IH; assumption|].
+    destruct (max_depth L <=? N.of_nat (length S)); [apply IH; assumption|].
+    destruct (flookup q c1) as [cf1|] eqn:F1; destruct (flookup q c2) as [cf2|] eqn:F2.
+    + destruct (C1 _ _ F1) as [A1 _]. destruct (C2 _ _ F2) as [A2 _]. assert (cf2 = cf1) by congruence. subst cf2.
+      sub_step Hrec IH q (f_dirs cf1). apply IH; assumption.
+    + destruct (C1 _ _ F1) as [A1 Z1]. rewrite A1, Z1.
+      sub_step Hrec IH q (f_dirs cf1). apply IH; [assumption|apply coherent_cons; assumption].
+    + destruct (C2 _ _ F2) as [A2 Z2]. rewrite A2, Z2.
+      sub_step Hrec IH q (f_dirs cf2). apply IH; [apply coherent_cons; assumption|assumption].
+    + destruct (flookup q fs) as [f|] eqn:Ff; [|apply IH; assumption].
+      destruct (max_size L <? f_size f) eqn:Zf; [apply IH; assumption|].
+      sub_step Hrec IH q (f_dirs f). apply IH; apply coherent_cons; assumption.
+Qed.
+
+Lemma load_wc_indep fs L : forall fuel, rec_indep fs L (load_wc fuel fs L).
+Proof.
+  induction fuel as [|fuel IH]; intros p dirs S V c1 c2 C1 C2; [exact I|].
+  cbn [load_wc stack visited cache].
+  pose proof (go_items_indep fs L _ IH (dir_items fs dirs) (mkRes [] []) [] (p :: S) (p :: V) c1 c2 [] [] [] C1 C2) as R.
+  unfold rel2 in R |- *.
+  destruct (go_items (load_wc fuel fs L) fs L (dir_items fs dirs) (mkRes [] []) [] (mkLS (p :: S) (p :: V) c1) [] []) as [o1|];
+  destruct (go_items (load_wc fuel fs L) fs L (dir_items fs dirs) (mkRes [] []) [] (mkLS (p :: S) (p :: V) c2) [] []) as [o2|];
+  try contradiction; [|exact I].
+  destruct R as ((R1 & R2 & R3 & R4 & R5) & K1 & K2). unfold agree.
+  cbn [w_res w_errs w_seen w_st stack visited cache]. split; [repeat split; assumption|split; assumption].
+Qed.
 
 (* the result of a load does not depend on which coherent cache it starts with *)
-Lemma load_wc_cache_indep fs L : forall fuel p dirs v c1 c2 o1,
+Lemma load_wc_cache_indep fs L : forall fuel p dirs S V c1 c2 o1,
   coherent fs L c1 -> coherent fs L c2 ->
-  load_wc fuel fs L p dirs (mkLS v c1) = Some o1 ->
-  exists o2, load_wc fuel fs L p dirs (mkLS v c2) = Some o2 /\ agree o1 o2 /\
-             coherent fs L (cache (o_st o1)) /\ coherent fs L (cache (o_st o2)).
+  load_wc fuel fs L p dirs (mkLS S V c1) = Some o1 ->
+  exists o2, load_wc fuel fs L p dirs (mkLS S V c2) = Some o2 /\ agree o1 o2 /\
+             coherent fs L (cache (w_st o1)) /\ coherent fs L (cache (w_st o2)).
 Proof.
-  induction fuel as [|fuel IH]; intros p dirs v c1 c2 o1 C1 C2 H; [discriminate|].
-  cbn [load_wc] in *. cbn [visited cache] in *.
-  destruct (max_depth L <=? N.of_nat (length v)).
-  { inversion H; subst. eexists. split; [reflexivity|]. unfold agree. cbn [o_res o_errs o_seen o_st visited cache]. split; [repeat split; reflexivity|split; assumption]. }
-  match type of H with context [?g (dir_items fs dirs) (mkRes [] []) [] ?s [] []] => set (GO := g) in * end.
-  assert (G : forall items res errs v c1 c2 h1 h2 seen o1, coherent fs L c1 -> coherent fs L c2 ->
-              GO items res errs (mkLS v c1) h1 seen = Some o1 ->
-              exists o2, GO items res errs (mkLS v c2) h2 seen = Some o2 /\ agree o1 o2 /\
-                         coherent fs L (cache (o_st o1)) /\ coherent fs L (cache (o_st o2))).
-  { clear H o1 C1 C2 c1 c2 v. induction items as [|[line oq] rest IHi]; intros res errs v c1 c2 h1 h2 seen o1 C1 C2 HG.
-    - inversion HG; subst. eexists. split; [reflexivity|]. unfold agree. cbn [o_res o_errs o_seen o_st visited cache]. split; [repeat split; reflexivity|split; assumption].
-    - unfold GO in HG |- *. cbn beta iota in HG |- *. fold GO in HG |- *. cbn [visited cache] in *.
-      destruct oq as [q|]; [|use_ih IHi].
-      destruct (memN q v); [use_ih IHi|].
-      (* the file both runs use for q, and the sub-load on it *)
-      assert (SUB : forall f sub1, load_wc fuel fs L q (f_dirs f) (mkLS v c1) = Some sub1 ->
-                exists sub2, load_wc fuel fs L q (f_dirs f) (mkLS v c2) = Some sub2 /\ agree sub1 sub2 /\
-                             coherent fs L (cache (o_st sub1)) /\ coherent fs L (cache (o_st sub2)))
-        by (intros f sub1 Hs; exact (IH q (f_dirs f) v c1 c2 sub1 C1 C2 Hs)).
-      destruct (flookup q c1) as [cf1|] eqn:F1; destruct (flookup q c2) as [cf2|] eqn:F2.
-      + (* both hit *)
-        destruct (C1 _ _ F1) as [A1 _]. destruct (C2 _ _ F2) as [A2 _]. assert (cf2 = cf1) by congruence. subst cf2.
-        destruct (load_wc fuel fs L q (f_dirs cf1) (mkLS v c1)) as [sub1|] eqn:E1; [|discriminate].
-        destruct (SUB cf1 sub1 E1) as (sub2 & E2 & (R1 & R2 & R3 & R4) & K1 & K2). rewrite E2. rewrite <- R1, <- R2, <- R3.
-        destruct (o_st sub1) as [v1 k1] eqn:S1; destruct (o_st sub2) as [v2 k2] eqn:S2; cbn [visited cache] in *. subst v2.
-        destruct (o_res sub1); use_ih IHi.
-      + (* run 1 hits, run 2 reads the file *)
-        destruct (C1 _ _ F1) as [A1 Z1]. rewrite A1, Z1.
-        destruct (load_wc fuel fs L q (f_dirs cf1) (mkLS v c1)) as [sub1|] eqn:E1; [|discriminate].
-        destruct (SUB cf1 sub1 E1) as (sub2 & E2 & (R1 & R2 & R3 & R4) & K1 & K2). rewrite E2. rewrite <- R1, <- R2, <- R3.
-        destruct (o_st sub1) as [v1 k1] eqn:S1; destruct (o_st sub2) as [v2 k2] eqn:S2; cbn [visited cache] in *. subst v2.
-        destruct (o_res sub1); use_ih IHi.
-      + (* run 1 reads the file, run 2 hits *)
-        destruct (C2 _ _ F2) as [A2 Z2]. rewrite A2, Z2 in HG.
-        destruct (load_wc fuel fs L q (f_dirs cf2) (mkLS v c1)) as [sub1|] eqn:E1; [|discriminate].
-        destruct (SUB cf2 sub1 E1) as (sub2 & E2 & (R1 & R2 & R3 & R4) & K1 & K2). rewrite E2. rewrite <- R1, <- R2, <- R3.
-        destruct (o_st sub1) as [v1 k1] eqn:S1; destruct (o_st sub2) as [v2 k2] eqn:S2; cbn [visited cache] in *. subst v2.
-        destruct (o_res sub1); use_ih IHi.
-      + (* both read the file *)
-        destruct (flookup q fs) as [f|] eqn:Ff; [|use_ih IHi].
-        destruct (max_size L <? f_size f) eqn:Zf; [use_ih IHi|].
-        destruct (load_wc fuel fs L q (f_dirs f) (mkLS v c1)) as [sub1|] eqn:E1; [|discriminate].
-        destruct (SUB f sub1 E1) as (sub2 & E2 & (R1 & R2 & R3 & R4) & K1 & K2). rewrite E2. rewrite <- R1, <- R2, <- R3.
-        destruct (o_st sub1) as [v1 k1] eqn:S1; destruct (o_st sub2) as [v2 k2] eqn:S2; cbn [visited cache] in *. subst v2.
-        destruct (o_res sub1); use_ih IHi. }
-  exact (G _ _ _ _ c1 c2 _ [] _ o1 C1 C2 H).
+  intros fuel p dirs S V c1 c2 o1 C1 C2 H. pose proof (load_wc_indep fs L fuel p dirs S V c1 c2 C1 C2) as R.
+  rewrite H in R. unfold rel2 in R. destruct (load_wc fuel fs L p dirs (mkLS S V c2)) as [o2|]; [|contradiction].
+  exists o2. split; [reflexivity|exact R].
 Qed.
 
-(* files of the file system not yet visited *)
-Definition unv (fs : fsys) (vis : list N) : nat := length (filter (fun kv => negb (memN (fst kv) vis)) fs).
+(* ------------------------------------------------------------------------------------------ *)
+(* (2) the loader is the reference traversal *)
 
-Lemma memN_In x l : memN x l = true <-> In x l.
+Ltac split5 := refine (conj _ (conj _ (conj _ (conj _ _)))).
+Ltac split4 := refine (conj _ (conj _ (conj _ _))).
+
+Definition refines (fs : fsys) (L : limits) (a : option wout) (stk : list N) (b : option rout) : Prop :=
+  match a, b with
+  | Some o, Some r =>
+      r_order (w_res o) = ro_order r /\ w_errs o = ro_errs r /\ visited (w_st o) = ro_loaded r /\
+      stack (w_st o) = stk /\ coherent fs L (cache (w_st o))
+  | None, None => True
+  | _, _ => False
+  end.
+
+Definition rec_refines (fs : fsys) (L : limits) (rec : recT) (rrec : rrecT) : Prop :=
+  forall q dirs st, coherent fs L (cache st) ->
+    refines fs L (rec q dirs st) (stack st) (rrec q dirs (stack st) (visited st)).
+
+Lemma with_err_spec e o :
+  with_err e o = match o with Some r => Some (mkRout (ro_order r) (e :: ro_errs r) (ro_loaded r)) | None => None end.
+Proof. reflexivity. Qed.
+
+Lemma go_items_refines fs L rec rrec : rec_refines fs L rec rrec ->
+  forall items res errs st hits seen, coherent fs L (cache st) ->
+    match go_items rec fs L items res errs st hits seen, ref_items rrec fs L (stack st) items (visited st) with
+    | Some o, Some r =>
+        r_order (w_res o) = r_order res ++ ro_order r /\ w_errs o = errs ++ ro_errs r /\
+        visited (w_st o) = ro_loaded r /\ stack (w_st o) = stack st /\ coherent fs L (cache (w_st o))
+    | None, None => True
+    | _, _ => False
+    end.
 Proof.
-  induction l as [|y r IH]; cbn [memN In]; [split; [discriminate|intros []]|].
-  rewrite orb_true_iff, IH, N.eqb_eq. split; intros [H|H]; auto.
+  intro Hrec.
+  (* the shape shared by all refused includes: one more diagnostic, state unchanged *)
+  assert (ERR : forall rest res errs e st hits seen,
+    (forall res errs st hits seen, coherent fs L (cache st) ->
+       match go_items rec fs L rest res errs st hits seen, ref_items rrec fs L (stack st) rest (visited st) with
+       | Some o, Some r => r_order (w_res o) = r_order res ++ ro_order r /\ w_errs o = errs ++ ro_errs r /\
+                           visited (w_st o) = ro_loaded r /\ stack (w_st o) = stack st /\ coherent fs L (cache (w_st o))
+       | None, None => True | _, _ => False end) ->
+    coherent fs L (cache st) ->
+    match go_items rec fs L rest res (errs ++ [e]) st hits seen, with_err e (ref_items rrec fs L (stack st) rest (visited st)) with
+    | Some o, Some r => r_order (w_res o) = r_order res ++ ro_order r /\ w_errs o = errs ++ ro_errs r /\
+                        visited (w_st o) = ro_loaded r /\ stack (w_st o) = stack st /\ coherent fs L (cache (w_st o))
+    | None, None => True | _, _ => False end).
+  { intros rest res errs e st hits seen IH C. specialize (IH res (errs ++ [e]) st hits seen C).
+    unfold with_err. destruct (go_items rec fs L rest res (errs ++ [e]) st hits seen) as [o|];
+    destruct (ref_items rrec fs L (stack st) rest (visited st)) as [r|]; try contradiction; [|exact I].
+    destruct IH as (A & B & D & E & F). cbn [ro_order ro_errs ro_loaded]. rewrite <- app_assoc in B. split5; assumption. }
+  induction items as [|[line oq] rest IH]; intros res errs st hits seen C.
+  - cbn [go_items ref_items w_res w_errs w_st ro_order ro_errs ro_loaded]. rewrite !app_nil_r. split5; try reflexivity. exact C.
+  - cbn [go_items ref_items]. destruct oq as [q|]; [|apply ERR; assumption].
+    destruct (memN q (stack st)); [apply ERR; assumption|].
+    destruct (memN q (visited st)); [apply IH; assumption|].
+    destruct (max_depth L <=? N.of_nat (length (stack st))); [apply ERR; assumption|].
+    destruct (flookup q (cache st)) as [cf|] eqn:Fc.
+    + destruct (C _ _ Fc) as [Fq Zq]. rewrite Fq, Zq.
+      pose proof (Hrec q (f_dirs cf) st C) as R. unfold refines in R.
+      destruct (rec q (f_dirs cf) st) as [sub|]; destruct (rrec q (f_dirs cf) (stack st) (visited st)) as [rsub|];
+        try contradiction; [|exact I].
+      destruct R as (R1 & R2 & R3 & R4 & R5).
+      destruct (w_st sub) as [S1 V1 k1]. cbn [stack visited cache] in R3, R4, R5. subst S1 V1.
+      specialize (IH (merge_res res q (f_version cf) (w_res sub)) (errs ++ w_errs sub) (mkLS (stack st) (ro_loaded rsub) k1)
+                     (hits ++ (q, negb (nodirs cf)) :: w_hits sub) (seen ++ q :: w_seen sub) R5).
+      cbn [stack visited] in IH.
+      destruct (go_items rec fs L rest _ _ (mkLS (stack st) (ro_loaded rsub) k1) _ _) as [o|];
+      destruct (ref_items rrec fs L (stack st) rest (ro_loaded rsub)) as [r|]; try contradiction; [|exact I].
+      destruct IH as (A & B & D & E & F). cbn [ro_order ro_errs ro_loaded merge_res r_order] in *.
+      rewrite A, B, R1, R2, <- !app_assoc. cbn [app]. split5; try reflexivity; assumption.
+    + destruct (flookup q fs) as [f|] eqn:Fq; [|apply ERR; assumption].
+      destruct (max_size L <? f_size f) eqn:Zq; [apply ERR; assumption|].
+      pose proof (Hrec q (f_dirs f) st C) as R. unfold refines in R.
+      destruct (rec q (f_dirs f) st) as [sub|]; destruct (rrec q (f_dirs f) (stack st) (visited st)) as [rsub|];
+        try contradiction; [|exact I].
+      destruct R as (R1 & R2 & R3 & R4 & R5).
+      destruct (w_st sub) as [S1 V1 k1]. cbn [stack visited cache] in R3, R4, R5 |- *. subst S1 V1.
+      assert (C' : coherent fs L (cache (mkLS (stack st) (ro_loaded rsub) ((q, f) :: k1))))
+        by (cbn [cache]; apply coherent_cons; assumption).
+      specialize (IH (merge_res res q (f_version f) (w_res sub)) (errs ++ w_errs sub) _
+                     (hits ++ w_hits sub) (seen ++ q :: w_seen sub) C').
+      cbn [stack visited] in IH.
+      destruct (go_items rec fs L rest _ _ (mkLS (stack st) (ro_loaded rsub) ((q, f) :: k1)) _ _) as [o|];
+      destruct (ref_items rrec fs L (stack st) rest (ro_loaded rsub)) as [r|]; try contradiction; [|exact I].
+      destruct IH as (A & B & D & E & F). cbn [ro_order ro_errs ro_loaded merge_res r_order] in *.
+      rewrite A, B, R1, R2, <- !app_assoc. cbn [app]. split5; try reflexivity; assumption.
 Qed.
 
-Lemma unv_mono fs v1 v2 : incl v1 v2 -> (unv fs v2 <= unv fs v1)%nat.
+Lemma load_wc_refines fs L : forall fuel, rec_refines fs L (load_wc fuel fs L) (ref_load fuel fs L).
 Proof.
-  intro I. unfold unv. induction fs as [|[k f] r IH]; [cbn; lia|]. cbn [filter fst].
-  destruct (memN k v2) eqn:M2; destruct (memN k v1) eqn:M1; cbn [negb length]; try lia.
-  exfalso. apply memN_In in M1. apply I in M1. apply memN_In in M1. congruence.
+  induction fuel as [|fuel IH]; intros p dirs st C; [exact I|].
+  cbn [load_wc ref_load].
+  pose proof (go_items_refines fs L _ _ IH (dir_items fs dirs) (mkRes [] []) []
+                (mkLS (p :: stack st) (p :: visited st) (cache st)) [] [] C) as R.
+  cbn [stack visited] in R. unfold refines.
+  destruct (go_items (load_wc fuel fs L) fs L (dir_items fs dirs) (mkRes [] []) [] _ [] []) as [o|];
+  destruct (ref_items (ref_load fuel fs L) fs L (p :: stack st) (dir_items fs dirs) (p :: visited st)) as [r|];
+    try contradiction; [|exact I].
+  destruct R as (A & B & D & E & F). cbn [w_res w_errs w_st stack visited cache r_order app] in *.
+  split5; try reflexivity; assumption.
 Qed.
 
-Lemma flookup_In {A} k (m : list (N * A)) v : flookup k m = Some v -> In (k, v) m.
+(* Loader.Load / LoadFromContent against the reference, for every coherent cache *)
+Definition root_refines (fs : fsys) (L : limits) (a : option lout) (b : option rout) : Prop :=
+  match a, b with
+  | Some o, Some r =>
+      match o_res o with Some res => r_order res = ro_order r | None => ro_order r = [] end /\
+      o_errs o = ro_errs r /\ visited (o_st o) = ro_loaded r /\ coherent fs L (cache (o_st o))
+  | None, None => True
+  | _, _ => False
+  end.
+
+Theorem load_root_refines fs L c root ov : coherent fs L c ->
+  root_refines fs L (load_root fs L c root ov) (ref_root fs L root ov).
 Proof.
-  induction m as [|[k' v'] r IH]; cbn [flookup]; [discriminate|].
-  destruct (k =? k') eqn:E; [apply N.eqb_eq in E; subst; intro H; inversion H; left; reflexivity|intro H; right; auto].
+  intro C. unfold load_root, ref_root.
+  destruct (match ov with Some f => Some f | None => flookup root fs end) as [f|];
+    [|cbn; split4; try reflexivity; exact C].
+  destruct (max_size L <? f_size f); [cbn; split4; try reflexivity; exact C|].
+  destruct (max_depth L <=? 0); [cbn; split4; try reflexivity; exact C|].
+  pose proof (load_wc_refines fs L (fuel_for fs) root (f_dirs f) (mkLS [] [] c) C) as R.
+  unfold refines in R. cbn [stack visited] in R.
+  destruct (load_wc (fuel_for fs) fs L root (f_dirs f) (mkLS [] [] c)) as [o|];
+  destruct (ref_load (fuel_for fs) fs L root (f_dirs f) [] []) as [r|]; try contradiction; [|exact I].
+  destruct R as (A & B & D & E & F). cbn [root_refines o_res o_errs o_st]. split4; assumption.
 Qed.
 
-Lemma filter_visit_le (r : fsys) q vis :
-  (length (filter (fun kv => negb (memN (fst kv) (q :: vis))) r) <= length (filter (fun kv => negb (memN (fst kv) vis)) r))%nat.
-Proof.
-  induction r as [|[k g] r IH]; [cbn; lia|]. cbn [filter fst].
-  change (memN k (q :: vis)) with ((k =? q) || memN k vis).
-  destruct (k =? q); destruct (memN k vis); cbn [orb negb length]; lia.
-Qed.
-
-Lemma unv_visit fs vis q f : flookup q fs = Some f -> memN q vis = false -> (unv fs (q :: vis) < unv fs vis)%nat.
-Proof.
-  intros L M. apply flookup_In in L. unfold unv. induction fs as [|[k g] r IH]; [destruct L|].
-  destruct L as [E|L].
-  - inversion E; subst. cbn [filter fst]. change (memN q (q :: vis)) with ((q =? q) || memN q vis).
-    rewrite N.eqb_refl, M. cbn [orb negb length].
-    pose proof (filter_visit_le r q vis) as H. lia.
-  - specialize (IH L). cbn [filter fst]. change (memN k (q :: vis)) with ((k =? q) || memN k vis).
-    destruct (k =? q); destruct (memN k vis); cbn [orb negb length]; lia.
-Qed.
-
-Lemma unv_le_length fs vis : (unv fs vis <= length fs)%nat.
-Proof. unfold unv. induction fs as [|x r IH]; [cbn; lia|]. cbn [filter]. destruct (negb _); cbn [length]; lia. Qed.
-
-(* the traversal never runs out of fuel, and only adds to the visited set (coherent cache: every
-   cached file is a file of the file system, so following its includes marks a new file too) *)
-Lemma load_wc_total fs L : forall fuel p dirs st, coherent fs L (cache st) -> (unv fs (p :: visited st) < fuel)%nat ->
-  exists out, load_wc fuel fs L p dirs st = Some out /\ incl (visited st) (visited (o_st out)) /\ coherent fs L (cache (o_st out)).
-Proof.
-  induction fuel as [|fuel IH]; intros p dirs st C H; [lia|].
-  cbn [load_wc]. destruct (max_depth L <=? N.of_nat (length (visited st))).
-  { eexists. split; [reflexivity|]. cbn [o_st]. split; [apply incl_refl|exact C]. }
-  set (st0 := mkLS (p :: visited st) (cache st)).
-  assert (B0 : (unv fs (visited st0) <= fuel)%nat) by (cbn [st0 visited]; lia).
-  assert (I0 : incl (visited st) (visited st0)) by (cbn [st0 visited]; apply incl_tl, incl_refl).
-  assert (C0 : coherent fs L (cache st0)) by exact C.
-  match goal with |- context [?g (dir_items fs dirs) (mkRes [] []) [] st0 [] []] => set (GO := g) end.
-  assert (G : forall items res errs st1 hits seen, coherent fs L (cache st1) -> (unv fs (visited st1) <= fuel)%nat -> incl (visited st) (visited st1) ->
-              exists out, GO items res errs st1 hits seen = Some out /\ incl (visited st) (visited (o_st out)) /\ coherent fs L (cache (o_st out))).
-  { induction items as [|[line oq] rest IHi]; intros res errs st1 hits seen C1 B I.
-    - eexists. split; [reflexivity|]. split; assumption.
-    - unfold GO. cbn beta iota. fold GO.
-      destruct oq as [q|]; [|apply IHi; assumption].
-      destruct (memN q (visited st1)) eqn:Mq; [apply IHi; assumption|].
-      assert (SUB : forall f, flookup q fs = Some f ->
-                exists sub, load_wc fuel fs L q (f_dirs f) st1 = Some sub /\ incl (visited st1) (visited (o_st sub)) /\ coherent fs L (cache (o_st sub))).
-      { intros f Fq. pose proof (unv_visit fs (visited st1) q f Fq Mq) as Dec. apply IH; [exact C1|lia]. }
-      destruct (flookup q (cache st1)) as [cf|] eqn:Fc.
-      + destruct (C1 _ _ Fc) as [Fq _]. destruct (SUB cf Fq) as (sub & Es & Is & Cs). rewrite Es.
-        destruct (o_res sub); apply IHi; try exact Cs; try (pose proof (unv_mono fs _ _ Is); lia); eapply incl_tran; eauto.
-      + destruct (flookup q fs) as [f|] eqn:Fq; [|apply IHi; assumption].
-        destruct (max_size L <? f_size f) eqn:Zf; [apply IHi; assumption|].
-        destruct (SUB f eq_refl) as (sub & Es & Is & Cs). rewrite Es.
-        destruct (o_res sub) as [sr|].
-        * apply IHi; cbn [visited cache]; [apply coherent_cons; assumption|pose proof (unv_mono fs _ _ Is); lia|eapply incl_tran; eauto].
-        * apply IHi; [exact Cs|pose proof (unv_mono fs _ _ Is); lia|eapply incl_tran; eauto]. }
-  apply G; assumption.
-Qed.
+(* ------------------------------------------------------------------------------------------ *)
+(* (3) the graph-level facts of Proofs/LoaderGraph.v, for the loader itself, whatever coherent
+   cache it starts with *)
 
 Theorem load_root_total fs L c root ov : coherent fs L c -> load_root fs L c root ov <> None.
 Proof.
-  intro C. unfold load_root. destruct (match ov with Some f => Some f | None => flookup root fs end) as [f|]; [|discriminate].
-  destruct (max_size L <? f_size f); [discriminate|].
-  destruct (load_wc_total fs L (fuel_for fs) root (f_dirs f) (mkLS [] c) C) as (out & E & _).
-  { unfold fuel_for. pose proof (unv_le_length fs [root]). cbn [visited]. lia. }
-  rewrite E. discriminate.
+  intros C H. pose proof (load_root_refines fs L c root ov C) as R. rewrite H in R. unfold root_refines in R.
+  destruct (ref_root fs L root ov) eqn:E; [exact R|]. exact (ref_root_total fs L root ov E).
 Qed.
 
-(* x is named by a directive of `dirs`, or by a directive of a file so reachable (as read from fs) *)
-Inductive reach (fs : fsys) : list directive -> N -> Prop :=
-| reach_direct dirs q line : In (line, Some q) (dir_items fs dirs) -> reach fs dirs q
-| reach_via dirs q f x line : In (line, Some q) (dir_items fs dirs) -> flookup q fs = Some f ->
-    reach fs (f_dirs f) x -> reach fs dirs x.
-
-(* soundness: whatever (coherent) cache and limits, every file in the resolved order is reachable
-   through include directives from the journal being loaded *)
-Lemma load_wc_sound fs L : forall fuel p dirs st out r, coherent fs L (cache st) ->
-  load_wc fuel fs L p dirs st = Some out -> o_res out = Some r -> forall x, In x (r_order r) -> reach fs dirs x.
+(* when the root is readable and within the limits the loader returns a result, and that result
+   and its diagnostics are the reference traversal's *)
+Lemma load_root_runs fs L c root ov f out : coherent fs L c -> root_file fs L root ov f ->
+  load_root fs L c root ov = Some out ->
+  exists res r, o_res out = Some res /\ ref_root fs L root ov = Some r /\
+                r_order res = ro_order r /\ o_errs out = ro_errs r /\ visited (o_st out) = ro_loaded r.
 Proof.
-  induction fuel as [|fuel IH]; intros p dirs st out r C H; [discriminate|].
-  cbn [load_wc] in H. destruct (max_depth L <=? N.of_nat (length (visited st))).
-  { inversion H; subst. cbn [o_res]. discriminate. }
-  set (st0 := mkLS (p :: visited st) (cache st)) in H.
-  match type of H with context [?g (dir_items fs dirs) (mkRes [] []) [] st0 [] []] => set (GO := g) in H end.
-  assert (G : forall items res errs st1 hits seen out r, coherent fs L (cache st1) ->
-              incl items (dir_items fs dirs) -> (forall x, In x (r_order res) -> reach fs dirs x) ->
-              GO items res errs st1 hits seen = Some out -> o_res out = Some r ->
-              forall x, In x (r_order r) -> reach fs dirs x).
-  { clear H. induction items as [|[line oq] rest IHi]; intros res errs st1 hits seen o r0 C1 Inc Hres HG Hr.
-    - inversion HG; subst. cbn [o_res] in Hr. inversion Hr; subst. exact Hres.
-    - assert (Inc' : incl rest (dir_items fs dirs)) by (intros y Iy; apply Inc; right; exact Iy).
-      assert (Here : forall q, oq = Some q -> In (line, Some q) (dir_items fs dirs)) by (intros q E; subst; apply Inc; left; reflexivity).
-      unfold GO in HG. cbn beta iota in HG. fold GO in HG.
-      destruct oq as [q|]; [|eapply IHi; eauto].
-      destruct (memN q (visited st1)); [eapply IHi; eauto|].
-      assert (STEP : forall f sub, flookup q fs = Some f -> load_wc fuel fs L q (f_dirs f) st1 = Some sub ->
-                (forall sr, o_res sub = Some sr -> forall x, In x (r_order res ++ q :: r_order sr) -> reach fs dirs x) /\
-                coherent fs L (cache (o_st sub))).
-      { intros f sub Fq Es. split.
-        - intros sr Er x Ix. apply in_app_or in Ix as [Ix|[E|Ix]]; [auto| |].
-          + subst x. eapply reach_direct. apply Here. reflexivity.
-          + eapply reach_via; [apply Here; reflexivity|exact Fq|]. eapply (IH q (f_dirs f) st1 sub sr C1 Es Er). exact Ix.
-        - destruct st1 as [v1 k1]. cbn [cache] in C1.
-          destruct (load_wc_cache_indep fs L _ _ _ _ k1 k1 sub C1 C1 Es) as (_ & _ & _ & K & _). exact K. }
-      destruct (flookup q (cache st1)) as [cf|] eqn:Fc.
-      + destruct (C1 _ _ Fc) as [Fq _].
-        destruct (load_wc fuel fs L q (f_dirs cf) st1) as [sub|] eqn:Es; [|discriminate].
-        destruct (STEP cf sub Fq Es) as [R K].
-        destruct (o_res sub) as [sr|] eqn:Er.
-        * eapply (IHi _ _ _ _ _ o r0 K Inc'); [|exact HG|exact Hr]. cbn [r_order]. apply (R sr eq_refl).
-        * eapply (IHi _ _ _ _ _ o r0 K Inc' Hres); [exact HG|exact Hr].
-      + destruct (flookup q fs) as [f|] eqn:Fq; [|eapply IHi; eauto].
-        destruct (max_size L <? f_size f) eqn:Zf; [eapply IHi; eauto|].
-        destruct (load_wc fuel fs L q (f_dirs f) st1) as [sub|] eqn:Es; [|discriminate].
-        destruct (STEP f sub eq_refl Es) as [R K].
-        destruct (o_res sub) as [sr|] eqn:Er.
-        * eapply (IHi _ _ _ _ _ o r0); [| exact Inc'| |exact HG|exact Hr].
-          -- cbn [cache]. apply coherent_cons; assumption.
-          -- cbn [r_order]. apply (R sr eq_refl).
-        * eapply (IHi _ _ _ _ _ o r0 K Inc' Hres); [exact HG|exact Hr]. }
-  intros Hr x Ix. assert (C0 : coherent fs L (cache st0)) by exact C.
-  eapply (G _ _ _ st0 _ _ out r C0 (incl_refl _)); [|exact H|exact Hr|exact Ix]. intros y [].
+  intros C RF H. pose proof (load_root_refines fs L c root ov C) as R. rewrite H in R. unfold root_refines in R.
+  destruct (ref_root fs L root ov) as [r|] eqn:E; [|contradiction]. destruct R as (A & B & D & _).
+  unfold load_root in H. destruct RF as (Ef & Z & Dp). rewrite Ef, Z, Dp in H.
+  destruct (load_wc (fuel_for fs) fs L root (f_dirs f) (mkLS [] [] c)) as [o|]; [|discriminate].
+  inversion H; subst out. cbn [o_res o_errs o_st] in *. exists (w_res o), r. repeat split; assumption.
 Qed.
 
-Theorem load_root_sound fs L c root ov out r f : coherent fs L c ->
-  match ov with Some g => Some g | None => flookup root fs end = Some f ->
-  load_root fs L c root ov = Some out -> o_res out = Some r ->
-  forall x, In x (r_order r) -> reach fs (f_dirs f) x.
+Theorem load_root_each_once fs L c root ov f out res : coherent fs L c -> root_file fs L root ov f ->
+  load_root fs L c root ov = Some out -> o_res out = Some res ->
+  NoDup (r_order res) /\ ~ In root (r_order res).
 Proof.
-  intros C Ef H Hr x Ix. unfold load_root in H. rewrite Ef in H.
-  destruct (max_size L <? f_size f); [inversion H; subst; discriminate|].
-  eapply (load_wc_sound fs L _ root (f_dirs f) (mkLS [] c) out r); [exact C|exact H|exact Hr|exact Ix].
+  intros C RF H Hr. destruct (load_root_runs _ _ _ _ _ _ _ C RF H) as (res' & r & E1 & E2 & E3 & _).
+  assert (res' = res) by congruence. subst res'. rewrite E3.
+  destruct (ref_root_each_once _ _ _ _ _ _ RF E2) as (A & B & _). split; assumption.
 Qed.
 
+Theorem load_root_sound fs L c root ov f out : coherent fs L c -> root_file fs L root ov f ->
+  load_root fs L c root ov = Some out ->
+  (forall res x, o_res out = Some res -> In x (r_order res) -> reach fs (f_dirs f) x /\ exists g, flookup x fs = Some g) /\
+  (forall e, In e (o_errs out) ->
+     (e_kind e = ENotFound /\ e_target e = 999999) \/
+     (attached fs (f_dirs f) (e_target e) (e_line e) /\
+      (e_kind e = ECycle -> e_target e = root \/ exists g, flookup (e_target e) fs = Some g /\ reach fs (f_dirs g) (e_target e)))).
+Proof.
+  intros C RF H. destruct (load_root_runs _ _ _ _ _ _ _ C RF H) as (res' & r & E1 & E2 & E3 & E4 & _).
+  destruct (ref_root_sound _ _ _ _ _ _ RF E2) as [A B]. split.
+  - intros res x Hr Hx. assert (res' = res) by congruence. subst res'. rewrite E3 in Hx. exact (A x Hx).
+  - rewrite E4. exact B.
+Qed.
+
+(* every include of the root and of every loaded file is loaded or carries its own diagnostic *)
+Theorem load_root_closed fs L c root ov f out res : coherent fs L c -> root_file fs L root ov f ->
+  load_root fs L c root ov = Some out -> o_res out = Some res ->
+  items_closed (dir_items fs (f_dirs f)) (visited (o_st out)) (o_errs out) /\
+  (forall x, In x (r_order res) -> exists g, flookup x fs = Some g /\
+     items_closed (dir_items fs (f_dirs g)) (visited (o_st out)) (o_errs out)).
+Proof.
+  intros C RF H Hr. destruct (load_root_runs _ _ _ _ _ _ _ C RF H) as (res' & r & E1 & E2 & E3 & E4 & E5).
+  assert (res' = res) by congruence. subst res'. rewrite E3, E4, E5.
+  destruct (ref_root_closed _ _ _ _ _ _ RF E2) as [A B]. split; [exact A|exact B].
+Qed.
+
+Theorem load_root_complete fs L c root ov f out res : coherent fs L c -> root_file fs L root ov f ->
+  load_root fs L c root ov = Some out -> o_res out = Some res ->
+  (forall g, flookup root fs = Some g -> dir_items fs (f_dirs g) = dir_items fs (f_dirs f)) ->
+  (forall e, In e (o_errs out) -> e_kind e = ECycle) ->
+  forall x, reach fs (f_dirs f) x -> x = root \/ In x (r_order res).
+Proof.
+  intros C RF H Hr Hroot Hc. destruct (load_root_runs _ _ _ _ _ _ _ C RF H) as (res' & r & E1 & E2 & E3 & E4 & _).
+  assert (res' = res) by congruence. subst res'. rewrite E3. rewrite E4 in Hc.
+  exact (ref_root_complete _ _ _ _ _ _ RF E2 Hroot Hc).
+Qed.
+
+Theorem load_root_no_spurious_cycle fs L c root ov f out : coherent fs L c -> root_file fs L root ov f ->
+  load_root fs L c root ov = Some out ->
+  ~ reach fs (f_dirs f) root ->
+  (forall x g, reach fs (f_dirs f) x -> flookup x fs = Some g -> ~ reach fs (f_dirs g) x) ->
+  forall e, In e (o_errs out) -> e_kind e <> ECycle.
+Proof.
+  intros C RF H Nr Nc. destruct (load_root_runs _ _ _ _ _ _ _ C RF H) as (res' & r & E1 & E2 & E3 & E4 & _).
+  rewrite E4. exact (ref_root_no_spurious_cycle _ _ _ _ _ _ RF E2 Nr Nc).
+Qed.
